@@ -33,13 +33,16 @@
    C05n_drop_*                Desync::drop = sync(free), issued by any activation - e.g. the body of a job of ANOTHER object (nested
                               operations never go to the object whose job is running: nwf): it runs after every operation on q whose call
                               returned before, and if it is the last operation on q nothing of q runs after it.
+   L1n_flatten_is_well_formed, *_prog   the same theorems stated directly for recursive programs [list (list nop)]: the flattening
+                              of every WELL-ORDERED program ([wo nq scs]: every object < nq, every nested operation goes to an object
+                              strictly above the object of the operation whose body it is in) is nwf, with ntop = number of callers.
    Fully proved. *)
 From stdpp Require Import list numbers option.
 From L0 Require Import Types.
 From L1 Require Import Model Own Shape Stuck Live Wait Help Final Pool.
 From L1h Require Import Hist Abs Sim HistFacts.
 From L1g Require Import Frozen.
-From L1n Require Import Model Proj NInv Quiet Main Wf Examples.
+From L1n Require Import Model Proj NInv Quiet Main Wf FlattenWf Examples.
 From Gen Require Import Tables.
 
 Theorem L1n_runs_are_L1_runs : forall (T : tables) (F : facts) ntop (P : prog) nq mx tr ns,
@@ -123,6 +126,53 @@ Theorem C05n_drop_runs_last : forall (T : tables) (F : facts), own_conditions T 
     forall h3 h4, ns.(nh) = h3 ++ Run D q :: h4 ->
       (forall B, B <> D -> Push B q ∈ ns.(nh) -> Run B q ∈ h3) /\ (forall B, Run B q ∉ h4).
 Proof. exact drop_runs_last_n. Qed.
+
+(* ---------- recursive programs ---------- *)
+Theorem L1n_flatten_is_well_formed : forall nq (scs : list (list nop)), wo nq scs -> nwf nq (length scs) (flatten scs).
+Proof. exact flatten_nwf. Qed.
+
+Theorem C03n_quiescent_is_complete_prog : forall (T : tables) (F : facts),
+  core_tables T -> own_conditions T -> imm_conditions T -> F.(f_dormant_blocks) = true -> F.(f_sticky_notify) = true ->
+  forall nq mx (scs : list (list nop)), wo nq scs -> 1 <= mx ->
+  forall tr ns, nrun T F (length scs) (flatten scs) (ninit nq mx (flatten scs)) tr = Some ns -> nterminal T F (length scs) (flatten scs) ns ->
+    nquiet (length scs) (flatten scs) ns /\ ncomplete (length scs) (flatten scs) ns = true.
+Proof.
+  exact (fun T F H1 H2 H3 H4 H5 nq mx scs Hwo => C03n_quiescent_is_complete T F H1 H2 H3 H4 H5 nq mx (length scs) (flatten scs) (flatten_nwf nq scs Hwo)).
+Qed.
+
+Theorem C03n_nothing_lost_prog : forall (T : tables) (F : facts),
+  core_tables T -> own_conditions T -> imm_conditions T -> F.(f_dormant_blocks) = true -> F.(f_sticky_notify) = true ->
+  forall nq mx (scs : list (list nop)), wo nq scs -> 1 <= mx ->
+  forall tr ns, nrun T F (length scs) (flatten scs) (ninit nq mx (flatten scs)) tr = Some ns -> nterminal T F (length scs) (flatten scs) ns ->
+  forall i q, Push i q ∈ ns.(nh) -> Run i q ∈ ns.(nh) /\ i ∈ ns.(base).(ran) /\
+    forall qo k, ns.(ops) !! i = Some (qo, Some k) -> k ∈ ns.(started) /\ done_b ns.(base) k = true.
+Proof.
+  exact (fun T F H1 H2 H3 H4 H5 nq mx scs Hwo => C03n_nothing_lost T F H1 H2 H3 H4 H5 nq mx (length scs) (flatten scs) (flatten_nwf nq scs Hwo)).
+Qed.
+
+Theorem C10n_blocked_objects_do_not_stop_the_others_prog : forall (T : tables) (F : facts),
+  core_tables T -> own_conditions T -> imm_conditions T -> F.(f_dormant_blocks) = true -> F.(f_sticky_notify) = true ->
+  forall nq mx (scs : list (list nop)), wo nq scs -> 1 <= mx ->
+  forall tr ns B0, nrun T F (length scs) (flatten scs) (ninit nq mx (flatten scs)) tr = Some ns ->
+    frozen_ok ns.(base) B0 -> nterminal_except T F (length scs) (flatten scs) B0 ns -> npool_free T F ns ->
+    nquiet_except (length scs) (flatten scs) B0 ns.
+Proof.
+  exact (fun T F H1 H2 H3 H4 H5 nq mx scs Hwo => C10n_blocked_objects_do_not_stop_the_others T F H1 H2 H3 H4 H5 nq mx (length scs) (flatten scs) (flatten_nwf nq scs Hwo)).
+Qed.
+
+(* non-vacuity: the example programs are well-ordered (and exS_prog, exD_prog are their flattenings) *)
+Example wo_examples :
+  wo 2 [[NDesync 0 [NSync 1 []]]; [NSync 1 []]] /\
+  wo 4 [[NDesync 0 [NSync 1 [NDesync 2 []; NTrySync 2 [NDesync 3 []]]]]; [NDesync 1 []; NSync 2 []]] /\
+  exS_prog = flatten [[NDesync 0 [NSync 1 []]]; [NSync 1 []]] /\
+  ~ wo 2 [[NDesync 1 [NSync 0 []]]].
+Proof.
+  split; [|split; [|split]].
+  - repeat constructor.
+  - repeat constructor.
+  - reflexivity.
+  - intros H. apply list.Forall_cons in H as [H _]. apply list.Forall_cons in H as [H _]. cbn in H. lia.
+Qed.
 
 (* without the sticky notification: D0[(S1[])] + S1[], pool maximum 1, ends in a state in which nobody can move, the body waits
    in sync_background on object 1, object 1 is Pending in the schedule and the only pool thread is the one waiting for the body *)
@@ -209,6 +259,11 @@ Print Assumptions C03n_nothing_lost.
 Print Assumptions C10n_blocked_objects_do_not_stop_the_others.
 Print Assumptions C05n_drop_after_returned.
 Print Assumptions C05n_drop_runs_last.
+Print Assumptions L1n_flatten_is_well_formed.
+Print Assumptions C03n_quiescent_is_complete_prog.
+Print Assumptions C03n_nothing_lost_prog.
+Print Assumptions C10n_blocked_objects_do_not_stop_the_others_prog.
+Print Assumptions wo_examples.
 Print Assumptions C10n_hypotheses_hold.
 Print Assumptions C05n_hypotheses_hold.
 Print Assumptions C03n_needs_sticky_notify_refuted.
